@@ -145,6 +145,12 @@ func idFamilies(r *vk.Rand) [][3]interface{} {
 		{"other-member", []party.ID{"a", "b", "z"}, []party.ID{"a", "c", "z"}},
 		{"extra-member", []party.ID{"a", "b", "z"}, []party.ID{"a", "b", "c", "z"}},
 		{"length-prefix-lookalike", []party.ID{"a\x00\x00\x00\x00\x00\x00\x00\x01b", "z"}, []party.ID{"a", "b", "z"}},
+		// identifiers that embed what a weakened framing would put between two identifiers: the list size or an
+		// identifier length as 8- or 4-byte big-endian numbers (valid UTF-8: only NULs and small control characters)
+		{"embedded-count-be64", []party.ID{"a", "b\x00\x00\x00\x00\x00\x00\x00\x03c", "x"}, []party.ID{"a\x00\x00\x00\x00\x00\x00\x00\x03b", "c", "x"}},
+		{"embedded-count-be32", []party.ID{"a", "b\x00\x00\x00\x03c", "x"}, []party.ID{"a\x00\x00\x00\x03b", "c", "x"}},
+		{"embedded-length-be64", []party.ID{"a", "b\x00\x00\x00\x00\x00\x00\x00\x01c", "x"}, []party.ID{"a\x00\x00\x00\x00\x00\x00\x00\x01b", "c", "x"}},
+		{"embedded-nul", []party.ID{"a", "b\x00c", "x"}, []party.ID{"a\x00b", "c", "x"}},
 	}
 }
 
